@@ -13,6 +13,7 @@ import (
 	"sort"
 	"strconv"
 	"strings"
+	"sync"
 	"time"
 
 	clisc "github.com/nspcc-dev/neo-go/cli/smartcontract"
@@ -153,6 +154,12 @@ func runC15(tier string, seed int64) int {
 			n2, dv2 := dualWorldRun(emb, scriptDiffers, tier)
 			n += n2
 			dv = dv2
+			if len(dv) == 0 {
+				// and the exhaustive grids that exercise the contract, case by case in both worlds
+				n3, dv3 := dualGridRun(emb, scriptDiffers, tier)
+				n += n3
+				dv = dv3
+			}
 		}
 		res.evals += n
 		res.notes["differential_executions"] = n
@@ -482,7 +489,9 @@ func checkBinding(name string) (int, []*Violation) {
 		}
 		arity[mt.Name][len(mt.Parameters)] = true
 	}
-	invokers := map[string]int{"Call": 2, "MakeCall": 2, "MakeUnsignedCall": 3, "MakeRun": 2, "CallAndExpandIterator": 2, "TerminateSession": -1}
+	// selector -> number of leading arguments up to and including the method literal (hash, method): the literal is
+	// always the second argument; MakeUnsignedCall carries one more (attrs) before the contract arguments
+	invokers := map[string]int{"Call": 2, "MakeCall": 2, "SendCall": 2, "MakeUnsignedCall": 2, "CallAndExpandIterator": 2}
 	ast.Inspect(f, func(nd ast.Node) bool {
 		call, ok := nd.(*ast.CallExpr)
 		if !ok {
@@ -506,8 +515,7 @@ func checkBinding(name string) (int, []*Violation) {
 			nargs-- // trailing max-items argument
 		}
 		if sel.Sel.Name == "MakeUnsignedCall" {
-			// (hash, method, attrs, args...) in this generator version: attrs precede the arguments
-			nargs = len(call.Args) - 3
+			nargs-- // (hash, method, attrs, args...): attrs precede the arguments
 		}
 		n++
 		if arity[method] == nil {
@@ -555,6 +563,7 @@ func differentialRun(emb map[string]*Compiled, differing []string, tier string) 
 		defer w.Close()
 		root := gridRoot(w)
 		mask := func(s string) string {
+			s = faultPos.ReplaceAllString(s, "") // where in the script a fault was raised is not behaviour
 			for n, c := range w.Contracts {
 				s = strings.ReplaceAll(s, Hx(c.Hash.BytesBE()), "<"+n+">")
 				s = strings.ReplaceAll(s, Hx(c.Hash.BytesLE()), "<"+n+">")
@@ -623,6 +632,8 @@ func differentialRun(emb map[string]*Compiled, differing []string, tier string) 
 	}
 	return len(a) + len(b), vs
 }
+
+var faultPos = regexp.MustCompile(`at instruction \d+ \([A-Z0-9_]+\): `)
 
 type dualSpec struct {
 	name  string
@@ -695,6 +706,128 @@ func dualWorldRun(emb map[string]*Compiled, differing []string, tier string) (in
 		}
 	}
 	return n, vs
+}
+
+// dualGridsFor lists the exhaustive grids that exercise a contract: they are evaluated once on the sources and
+// once on the shipped executable, and every case must end the same way.
+func dualGridsFor(contract string) map[string]func() GridDriver {
+	switch contract {
+	case "nns":
+		return map[string]func() GridDriver{"nns-validators": func() GridDriver { return NewValGrid() }}
+	case "container":
+		return map[string]func() GridDriver{"placement-signatures": func() GridDriver { return NewSigGrid() }, "container-fee-n4": func() GridDriver { return NewFeeGrid(4) }}
+	case "balance", "netmap":
+		return map[string]func() GridDriver{"container-fee-n4": func() GridDriver { return NewFeeGrid(4) }}
+	case "alphabet", "proxy", "processing":
+		return map[string]func() GridDriver{"alphabet-emit": func() GridDriver { return NewEmitGrid() }}
+	}
+	return nil
+}
+
+// evalGridAll evaluates every case of a grid (current ScriptOverride in force) and returns outcome + violation
+// classes per case.
+func evalGridAll(mk func() GridDriver, tier string) map[string]string {
+	d0 := mk()
+	cases := d0.Cases(tier)
+	res := make([]string, len(cases))
+	var wg sync.WaitGroup
+	var mu sync.Mutex
+	var perr any
+	idx := 0
+	nw := Workers()
+	if nw > len(cases) {
+		nw = len(cases)
+	}
+	for k := 0; k < nw; k++ {
+		wg.Add(1)
+		go func() {
+			defer wg.Done()
+			defer func() {
+				if r := recover(); r != nil {
+					mu.Lock()
+					if perr == nil {
+						perr = r
+					}
+					mu.Unlock()
+				}
+			}()
+			d := mk()
+			w := d.Build()
+			defer w.Close()
+			for {
+				mu.Lock()
+				i := idx
+				idx++
+				mu.Unlock()
+				if i >= len(cases) {
+					return
+				}
+				r := d.Eval(&Exec{W: w}, gridRoot(w), cases[i])
+				o := r.Outcome
+				for _, v := range r.V {
+					o += " !" + v.Class
+				}
+				res[i] = o
+			}
+		}()
+	}
+	wg.Wait()
+	if perr != nil {
+		panic(perr)
+	}
+	out := map[string]string{}
+	for i, c := range cases {
+		out[c.Name] = res[i]
+	}
+	return out
+}
+
+func dualGridRun(emb map[string]*Compiled, differing []string, tier string) (int, []*Violation) {
+	n := 0
+	for _, c := range differing {
+		grids := dualGridsFor(c)
+		var names []string
+		for g := range grids {
+			names = append(names, g)
+		}
+		sort.Strings(names)
+		for _, g := range names {
+			run := func(useEmbedded bool) (res map[string]string, refused string) {
+				ScriptOverride = map[string]*Compiled{}
+				if useEmbedded {
+					ScriptOverride[c] = emb[c]
+				}
+				defer func() {
+					ScriptOverride = map[string]*Compiled{}
+					if r := recover(); r != nil {
+						sr, ok := r.(SetupRefused)
+						if !ok {
+							panic(r)
+						}
+						refused = sr.Error()
+					}
+				}()
+				return evalGridAll(grids[g], "quick"), ""
+			}
+			a, ra := run(false)
+			b, rb := run(true)
+			if ra != rb {
+				return n, []*Violation{Viol("embedded-behaves-differently", fmt.Sprintf("grid %s: preparing the base state: sources %q | shipped executable %q", g, ra, rb), map[string]any{"contract": c, "grid": g})}
+			}
+			n += len(a) + len(b)
+			var keys []string
+			for k := range a {
+				keys = append(keys, k)
+			}
+			sort.Strings(keys)
+			for _, k := range keys {
+				if a[k] != b[k] {
+					return n, []*Violation{Viol("embedded-behaves-differently", fmt.Sprintf("grid %s, case %s: sources: %s | shipped executable: %s", g, k, a[k], b[k]), map[string]any{"contract": c, "grid": g, "case": k})}
+				}
+			}
+		}
+	}
+	return n, nil
 }
 
 // propertyOfDriver tells under which property a driver's known findings are listed.
